@@ -66,6 +66,14 @@ try:
                                  "clauses": sorted(set("%s/%s" % (a, b) for a, b in zip(subs, clauses))), "wall_s": round(dtc, 1),
                                  "tail": oc[-400:] if rcc != 1 else ""}
     os.makedirs(out, exist_ok=True)
+    # keep the curated fields of an earlier evaluation (who wrote the change, what the first evaluation said)
+    try:
+        old = json.load(open(os.path.join(out, "meta.json")))
+        for k in ("source", "history"):
+            if k in old:
+                meta[k] = old[k]
+    except (OSError, ValueError):
+        pass
     for fn in ("patch.diff", "demo.py", "notes.md"):
         if os.path.exists(os.path.join(src, fn)):
             shutil.copy(os.path.join(src, fn), os.path.join(out, fn))
